@@ -3,9 +3,9 @@
     Jsonx/LexProofs.v, ParseProofs.v, Term.v, TermLegacy.v or ConstsGen.v.
     [pf] is strconv.ParseFloat on a float token and [ff] json.Marshal of a
     float64: arbitrary functions, so the theorems hold whatever they return. *)
-From Coq Require Import List NArith Bool String.
+From Coq Require Import List NArith ZArith Bool String.
 From Verif Require Import Lib.Utf8 Jsonx.Lex Jsonx.Tok Jsonx.GoStr Jsonx.Parse Jsonx.Json
-  Jsonx.Encode Jsonx.LexProofs Jsonx.ParseProofs Jsonx.Term Jsonx.TermLegacy
+  Jsonx.Encode Jsonx.LexProofs Jsonx.ParseProofs Jsonx.Term Jsonx.Balance Jsonx.TermLegacy
   Jsonx.GenTypes Gen.JsonxConsts Jsonx.ConstsGen.
 Import ListNotations.
 Local Open Scope N_scope.
@@ -99,6 +99,23 @@ Theorem C08_lex_error_rejected_series :
 Proof. exact (fun F pf ff => lex_error_rejected_series pf ff). Qed.
 Print Assumptions C08_lex_error_rejected_series.
 
+(** ... and a document in which a bracket is left open (more "{" "[" than
+    "}" "]" among the tokens the parser receives), or closed once too often,
+    is accepted neither by Unmarshal nor by DecodeSeries. *)
+Theorem C08_unbalanced_rejected_unmarshal :
+  forall (F : Type) (pf : list N -> option F) (ff : F -> list N) input t,
+  unmarshal pf ff input = Ok (UOk t) ->
+  exists raw, jsonx_raw_tokens input = Ok raw /\ bal (sbody (parser_stream raw)) = 0%Z.
+Proof. exact (fun F pf ff => unmarshal_ok_balanced pf ff). Qed.
+Print Assumptions C08_unbalanced_rejected_unmarshal.
+
+Theorem C08_unbalanced_rejected_series :
+  forall (F : Type) (pf : list N -> option F) (ff : F -> list N) tm input res,
+  decode_series pf ff tm input = Ok (Some res, []) ->
+  exists raw, jsonx_raw_tokens input = Ok raw /\ bal (sbody (parser_stream raw)) = 0%Z.
+Proof. exact (fun F pf ff => decode_series_ok_balanced pf ff). Qed.
+Print Assumptions C08_unbalanced_rejected_series.
+
 (** The loop SkipErrStmt had before the repair cannot leave EOF with any
     amount of fuel (the hang of DecodeSeries("x {")). *)
 Theorem C08_legacy_skip_refuted : forall fuel r c fin,
@@ -150,6 +167,16 @@ Example C08_series_example :
     [120; 32; 123; 97; 58; 49; 125; 10; 121; 32; 91; 49; 44; 50; 93; 10]
   = Ok (Some [([120], [123; 34; 97; 34; 58; 49; 125]); ([121], [91; 49; 44; 50; 93])], []).
 Proof. vm_compute. reflexivity. Qed.
+
+(** "{a:[1,2}" : balance 1, rejected. *)
+Example C08_unbalanced_example :
+  match jsonx_raw_tokens [123; 97; 58; 91; 49; 44; 50; 125] with
+  | Ok raw => bal (sbody (parser_stream raw))
+  | _ => 0%Z
+  end = 1%Z /\
+  unmarshal (fun _ => @None N) (fun _ => []) [123; 97; 58; 91; 49; 44; 50; 125]
+  = Ok (UErr EExpectOp).
+Proof. vm_compute. split; reflexivity. Qed.
 
 Example C08_legacy_example :
   legacy_skip_loop 1000 (eof_tok []) [] [] = None.
